@@ -21,9 +21,17 @@ from common import Evidence, Verdicts, run_tlc, stage_spec, MachineryError
 PROP = "C11"
 
 
-def build(v, backend):
+def build(v, backend, share=None):
+    """share: a dict used as memo - equal sub-dictionaries / sub-lists become ONE object (aliasing)"""
     from klongpy.core import KGSym, KGChar
     t = v["t"]
+    if share is not None and t in ("l", "d"):
+        key = json.dumps(v, sort_keys=True)
+        if key in share:
+            return share[key]
+        r = _build_compound(v, backend, share)
+        share[key] = r
+        return r
     if t == "i":
         return int(v["v"])
     if t == "r":
@@ -34,11 +42,15 @@ def build(v, backend):
         return "".join(chr(c) for c in v["v"])
     if t == "y":
         return KGSym("".join(chr(c) for c in v["v"]))
-    if t == "l":
-        return backend.kg_asarray([build(x, backend) for x in v["v"]])
-    if t == "d":
-        return {build(k, backend): build(x, backend) for k, x in v["v"]}
+    if t in ("l", "d"):
+        return _build_compound(v, backend, share)
     raise MachineryError(f"unknown tag {t}")
+
+
+def _build_compound(v, backend, share):
+    if v["t"] == "l":
+        return backend.kg_asarray([build(x, backend, share) for x in v["v"]])
+    return {build(k, backend): build(x, backend, share) for k, x in v["v"]}
 
 
 def canon(x):
@@ -173,6 +185,28 @@ def run(tier, seed):
             info["back"] = show(rec["back"])
             obs.append(rec)
             meta[tid] = (v, info)
+            if p.get("shared"):
+                tid = len(obs)
+                rec = {"tid": tid, "kind": "roundtrip", "v": v}
+                info = {"value": show(v) + " (equal parts built as ONE shared object)"}
+                try:
+                    k["v"] = build(v, k._backend, share={})
+                    rec["v"] = canon(k["v"])
+                    text = written("v")
+                    info["text"] = text
+                    k["t"] = text
+                    back = k(".rs(t)")
+                    rec["back"] = canon(back)
+                    k["u"] = back
+                    text2 = written("u")
+                    info["text2"] = text2
+                    rec["sametext"] = text2 == text
+                except BaseException as ex:   # noqa
+                    rec["back"] = {"t": "x", "v": f"raised {type(ex).__name__}: {str(ex)[:60]}"}
+                    rec["sametext"] = False
+                info["back"] = show(rec["back"])
+                obs.append(rec)
+                meta[tid] = (v, info)
             if p["atom"]:
                 tid = len(obs)
                 rec = {"tid": tid, "kind": "form", "v": v, "sametext": True}
